@@ -729,9 +729,9 @@ static double amplgsl_sf_bessel_j2(arglist *al) {
   if (al->derivs) {
     *al->derivs = x != 0 ? gsl_sf_bessel_j1(x) - 3 * j2 / x : 0;
     if (al->hes) {
-      *al->hes = x != 0 ? (x * (5 * gsl_pow_2(x) - 36) * cos(x) +
+      *al->hes = fabs(x) >= 1e-2 ? (x * (5 * gsl_pow_2(x) - 36) * cos(x) +
           (gsl_pow_4(x) - 17 * gsl_pow_2(x) + 36) * sin(x)) / gsl_pow_5(x) :
-              2.0 / 15.0;
+              2.0 / 15.0 - x * x * (2.0 / 35.0 - x * x / 252.0);
     }
   }
   return check_result(al, j2);
@@ -1312,11 +1312,17 @@ static double debye(arglist *al, int n, double (*func)(double)) {
   double f = func(x);
   if (al->derivs) {
     double exp_x = exp(x);
-    double deriv = *al->derivs = x != 0 ?
-        n * (1 / (exp_x - 1) - f / x) : DEBYE_DERIV_AT_0[n - 1];
+    /* D_n(x) = 1 - n x / (2 (n + 1)) + n x^2 / (12 (n + 2)) - n x^4 / (720 (n + 4)) + ...
+       The closed forms below subtract two terms of size 1 / x and 1 / x^2. */
+    int small = fabs(x) < 1e-2;
+    double deriv = *al->derivs = !small ?
+        n * (1 / (exp_x - 1) - f / x) :
+        DEBYE_DERIV_AT_0[n - 1] + x * (DEBYE_DERIV2_AT_0[n - 1] -
+            n * x * x / (180.0 * (n + 4)));
     if (al->hes) {
-      *al->hes = x != 0 ? n * (-exp_x / gsl_pow_2(exp_x - 1) +
-          f / gsl_pow_2(x) - deriv / x) : DEBYE_DERIV2_AT_0[n - 1];
+      *al->hes = !small ? n * (-exp_x / gsl_pow_2(exp_x - 1) +
+          f / gsl_pow_2(x) - deriv / x) :
+          DEBYE_DERIV2_AT_0[n - 1] - n * x * x / (60.0 * (n + 4));
     }
   }
   return check_result(al, f);
@@ -1348,7 +1354,8 @@ static double amplgsl_sf_dilog(arglist *al) {
     }
     *al->derivs = deriv;
     if (al->hes)
-      *al->hes = x != 0 ? (1 / (1 - x) - deriv) / x : 0.5;
+      *al->hes = fabs(x) >= 1e-3 ? (1 / (1 - x) - deriv) / x :
+          0.5 + x * (2.0 / 3 + x * (0.75 + x * 0.8));
   }
   return check_result(al, gsl_sf_dilog(x));
 }
